@@ -98,6 +98,13 @@ def run(ctx):
     n = 60 if ctx.tier == 'quick' else 400
     specs = util.corpus(ctx.prop) + gen.gen_many(ctx.seed, n, CFG, 'c20_')
     specs += util.orderbook_tail_specs(ctx.seed, 10 if ctx.tier == 'quick' else 60, 'c20ob_', split=False)
+    # orders starting / ending inside the repeated or missing hour of a DST switch (aware instants)
+    specs += gen.gen_many(ctx.seed, n // 2, dict(CFG, aware=True, tzs=['CET'], p_dst=1.0, freqs=['h', '30min'], T=(5, 10)), 'c20dst_')
+    # the same objects were used before (other prices): assets before the book with their own wacc / window
+    warm = gen.gen_many(ctx.seed, n // 2, dict(CFG, p_window=0.6, p_wacc=0.8, kinds={'OrderBook': 3, 'SimpleContract': 3, 'Storage': 1}), 'c20w_')
+    for sp in warm:
+        sp['opts']['warmup'] = 'solve'
+    specs += warm
     specs = ctx.specs(specs)
     res = C.run_impl('reference', specs)
     parts = C.run_impl('assets', specs)
